@@ -105,6 +105,9 @@ def randomise(tree, rng, positive=()):
 def positive_leaves(state):
     """Leaves of a ProbabilisticSolution that are positive by construction."""
     out = [state.output_scale, state.prior.output_scale]
+    sf = state.solution_full
+    if hasattr(sf, "conditional"):
+        out += [sf.conditional.to_latent, sf.conditional.to_observed]
     if isinstance(state.auxiliary, tuple) and len(state.auxiliary) == 3:
         out += [state.auxiliary[2]]
     return out
